@@ -48,6 +48,28 @@ def _sites(tree):
             sites.append(("drop-guard", idx, "if %s: raise" % norm(node.test)[:40]))
         elif isinstance(node, ast.Assert):
             sites.append(("drop-assert", idx, norm(node)[:50]))
+        elif isinstance(node, ast.Expr) and isinstance(node.value, ast.Call):
+            nm = norm(node.value.func)
+            if not nm.startswith(("logger.", "logging.", "print", "tqdm.",
+                                  "progress_bar.", "parser.", "group.")):
+                sites.append(("drop-call", idx, norm(node)[:50]))
+        elif isinstance(node, ast.Constant) and isinstance(node.value, str) \
+                and len(node.value) >= 2 and node.value[0] == "<" and \
+                node.value[1:].isalnum() and len(node.value) <= 4:
+            sites.append(("endianness", idx, repr(node.value)))
+        elif isinstance(node, ast.keyword) and node.arg == "order" and \
+                isinstance(node.value, ast.Constant) and \
+                node.value.value in ("C", "F"):
+            sites.append(("array-order", idx, "order=%r" % node.value.value))
+        elif isinstance(node, ast.Call) and len(node.args) >= 2 and \
+                all(isinstance(a, ast.Name) for a in node.args[:2]) and \
+                node.args[0].id != node.args[1].id and \
+                not norm(node.func).startswith(("logger.", "isinstance",
+                                                "print", "getattr", "zip")):
+            sites.append(("swap-args", idx, norm(node)[:50]))
+        elif isinstance(node, ast.If) and node.orelse and not (
+                len(node.orelse) == 1 and isinstance(node.orelse[0], ast.If)):
+            sites.append(("negate-if", idx, "if %s" % norm(node.test)[:40]))
     return sites
 
 
@@ -71,6 +93,17 @@ def _mutate(tree, op, idx):
             node.body = [ast.Pass()]
         elif op == "drop-assert":
             node.test = ast.Constant(value=True)
+        elif op == "drop-call":
+            node.value = ast.Constant(value=None)
+        elif op == "endianness":
+            node.value = ">" + node.value[1:]
+        elif op == "array-order":
+            node.value = ast.Constant(
+                value="F" if node.value.value == "C" else "C")
+        elif op == "swap-args":
+            node.args[0], node.args[1] = node.args[1], node.args[0]
+        elif op == "negate-if":
+            node.test = ast.UnaryOp(op=ast.Not(), operand=node.test)
         break
     ast.fix_missing_locations(tree)
     return ast.unparse(tree)
@@ -132,6 +165,12 @@ def _run_mutant(args):
             return (op, modname, desc, "silent")
         except AnalysisError:
             return (op, modname, desc, "analysis-error")
+        except Exception as exc:     # a crash of the checker on this mutant
+            import traceback
+            tb = traceback.extract_tb(exc.__traceback__)[-1]
+            return (op, modname, desc, "crash:%s %s:%d %s" % (
+                type(exc).__name__, os.path.basename(tb.filename), tb.lineno,
+                str(exc)[:60]))
     finally:
         shutil.rmtree(d, ignore_errors=True)
 
@@ -145,7 +184,9 @@ def sweep(prop, jobs=16, limit=400, seed=0):
     tasks = []
     for mn in mods:
         m = repo.modules[mn]
-        for op, idx, desc in _sites(m.tree):
+        # enumerate on a fresh parse: m.tree is the canonicalised view, whose
+        # node numbering differs from the file the mutant is made from
+        for op, idx, desc in _sites(ast.parse(m.source)):
             tasks.append((prop, mn, m.relpath, op, idx, desc))
     # deterministic thinning when there are too many sites
     if len(tasks) > limit:
@@ -175,12 +216,16 @@ def sweep(prop, jobs=16, limit=400, seed=0):
                                    if r[3].startswith(("undecided",
                                                        "analysis-error"))),
         "silent": len(silent),
+        "checker_crashes": sorted({r[3] for r in results
+                                   if r[3].startswith("crash")}),
         "by_operator": summary,
         "reported_samples": [{"op": r[0], "module": r[1].split(".", 1)[1],
                               "site": r[2], "rule": r[3][9:]}
                              for r in reported[:15]],
         "silent_samples": [{"op": r[0], "module": r[1].split(".", 1)[1],
-                            "site": r[2]} for r in silent[:25]],
+                            "site": r[2]} for r in silent[:40]],
+        "silent_all": [(r[0], r[1].split(".", 1)[1], r[2]) for r in silent]
+        if os.environ.get("NGS_SWEEP_ALL") else None,
         "wall_s": round(time.time() - t0, 2),
         "note": "single-site generic mutations of the consulted modules; "
                 "silent ones are mostly value-level, equivalent, or outside "
